@@ -483,6 +483,14 @@ package transport
 //@   ensures [C18:connection-closed-once-by-the-first-close] nConn == ((!old(t.closed) && t.c != nil) ? 1 : 0)
 //@   callsite CloseWithError?: [C18:connection-closed-under-the-lock] held && arg0 == t.c
 
+// what a caller may assume of any transport's exchange: a reply is a decoded message made of objects of its own
+// (every implementation returns what UnpackMsg built from the bytes it read), or an error and no message
+//@ func (t Transport) ExchangeContext(ctx context.Context, m []byte) (r *dnsmsg.Msg, err error)
+//@   trusted
+//@   modifies nothing
+//@   ensures err == nil ==> r != nil && fresh(r) && wfMsg(r) && ownSecs(r) && len(r.Questions) <= 65535 && len(r.Answers) <= 65535 && len(r.Authorities) <= 65535 && len(r.Additionals) <= 65535
+//@   ensures err != nil ==> r == nil
+
 // closing a transport (any implementation) does not touch its user's state: it closes its own connections
 //@ func (t Transport) Close() (err error)
 //@   trusted
